@@ -6,12 +6,14 @@
     RejInv    (Proofs/C12RejInv)                            ringorder_rejInv  setorder_rejInv
     SortInvP  (Proofs/C12SortDef)                           ringorder_sort    setorder_sort (with setorder_sortOK)
 
-  so `step_full` / `step_rejInv` / `step_sort` extend to trajectories in which `step`s and accepted resync edits
+  so `step_full` / `step_rejInv` / `step_sort` extend to trajectories in which `step`s, accepted resync edits and
+  refused loads of mempool.dmp / InitMempool() (Model/MempoolLoad `loadRefused`, Proofs/C12Load `loadRefused_inv`)
   alternate (`rstep_inv`, `rrun_inv` at the end).  Core Lean only.
 -/
 import GocoinV.Model.MempoolResync
 import GocoinV.Proofs.C12RejInv
 import GocoinV.Proofs.C12SortRun
+import GocoinV.Proofs.C12Load
 namespace GocoinV.Mempool
 
 theorem isPerm_perm {a b : List Nat} (h : isPerm a b = true) : a.Perm b := List.isPerm_iff.mp h
@@ -197,24 +199,30 @@ theorem setorder_sort {K : Keys} {W : Tx → Prop} {rank : TxId → Nat} {u0 : U
 
 /-! ### trajectories with resync edits
 
-  One move of the oracle: an operation of the model, or a `ringorder` / `setorder` edit (a refused edit leaves the
-  state as it is, as in the oracle). -/
+  One move of the oracle: an operation of the model, a `ringorder` / `setorder` edit (a refused edit leaves the
+  state as it is, as in the oracle), or a refused MempoolLoad / InitMempool (`loadfail`: the pool is re-initialised;
+  `k`, `j` say where the file written from the current state was cut — the result depends on them only through the
+  sticky panic flag, `loadRefused_eq`; `j = none` is also InitMempool() alone, the text-UI `mempool purge`). -/
 
 inductive Move where
   | op (o : Op)
   | ring (ks : List Nat)
   | sort (ks : List Nat)
+  /-- a refused MempoolLoad (file cut after `k` pool records / after the pool section and `j` rejected records,
+      damaged, written for another tip, or missing) or a bare InitMempool() -/
+  | init (k : Nat) (j : Option Nat)
 
 def rstep (K : Keys) (s : State) : Move → State
   | .op o => step K s o
   | .ring ks => (ringorder s ks).getD s
   | .sort ks => (setorder K s ks).getD s
+  | .init k j => loadRefused K s k j
 
 /-- a history of operations with resync edits in between -/
 def rrun (K : Keys) (s : State) (ms : List Move) : State := ms.foldl (rstep K) s
 
 /-- the hypotheses of `step_full` / `step_rejInv` / `step_sort` for the operations of the history, each in the state
-    it is applied to; the resync edits need none -/
+    it is applied to; the resync edits and the refused loads need none -/
 def RAdm (K : Keys) (W : Tx → Prop) (u0 : UT) (ν : OutPoint → Nat) : State → List Move → Prop
   | _, [] => True
   | s, m :: r =>
@@ -244,6 +252,7 @@ theorem rstep_inv {K : Keys} {W : Tx → Prop} {rank : TxId → Nat} {u0 : UT} {
     cases h : setorder K s ks with
     | none => exact ⟨f, r, q⟩
     | some s' => exact ⟨setorder_full h f, setorder_rejInv h r, setorder_sort U h f.good⟩
+  | init k j => exact loadRefused_inv s k j f r
 
 /-- … hence every history with resync edits (`run_full`, `run_rejInv`, `run_sort` for resynced trajectories) -/
 theorem rrun_inv {K : Keys} {W : Tx → Prop} {rank : TxId → Nat} {u0 : UT} {ν : OutPoint → Nat}
